@@ -59,6 +59,15 @@ def run(ctx):
         t = "".join(r.choice(codecio.ALPHABETS[enc] + list("|^\\&|^\\")) for _ in range(r.choice([1, 3, 8, 20, 60])))
         t = t.replace("\r", "")
         cases.append((t.encode(enc), enc))
+    # records that look like a header with a delimiter definition of their own (H|<any two punctuation bytes>...),
+    # followed by ordinary records: the delimiters are always | \\ ^, whatever a header announces
+    for _ in range(600 if ctx.thorough else 120):
+        enc = r.choice(codecio.ENCODINGS)
+        a, b = r.sample(list(b"~!@#$%*+=:;,.?/<>-_"), 2)
+        cases.append((b"H|" + bytes([a, b]) + b"&|||" + "".join(r.choice("ab^\\|~!") for _ in range(r.randrange(0, 8))).encode(), enc))
+        for _k in range(2):
+            t = "".join(r.choice(list("ab19 ") + list("|^\\~!@#")) for _ in range(r.choice([3, 8, 20])))
+            cases.append((t.encode(enc), enc))
     # undecodable bytes (error branch)
     for _ in range(300):
         enc = r.choice(["ascii", "utf-8", "cp1251"])
